@@ -1420,6 +1420,11 @@ class GeoboxTiles:
         return range(y1, y2 + 1), range(x1, x2 + 1)
 
     def _tiles_from_pix_bbox(self, bbox: BoundingBox) -> Iterator[Tuple[int, int]]:
+        NY, NX = self._gbox.shape.yx
+        (x1, x2), (y1, y2) = bbox.range_x, bbox.range_y
+        if x2 <= 0 or x1 >= NX or y2 <= 0 or y1 >= NY:
+            # no overlap with the image: ``range_from_bbox`` would clamp to the nearest edge tiles
+            return
         yy, xx = self.range_from_bbox(bbox)
         yield from itertools.product(yy, xx)
 
